@@ -240,6 +240,8 @@ def run(ctx):
     ctx.replayed = len(states) + gradpattern.replay(ctx, ["quad"], "quad")
     from vlib import objstate
     ctx.replayed += objstate.replay(ctx, ["quad"], "quad")
+    from vlib import bwdreuse
+    ctx.replayed += bwdreuse.replay(ctx, ["quad"], "quad", sample=(120 if ctx.tier == "thorough" else 20))
     from vlib import bckhistory
     ctx.replayed += bckhistory.replay(ctx, ["quad"], "quad", 3)
     ctx.notes.update(cases=n)
